@@ -198,11 +198,14 @@ func writeSTL(wg *sync.WaitGroup, path string) (chan<- []*sdf.Triangle3, error) 
 	go func() {
 		defer wg.Done()
 		defer f.Close()
+		verifEv("wr.start", 0, 0, 0)
+		defer verifEv("wr.exit", 0, 0, 0)
 
 		var count uint32
 		var d STLTriangle
 		// read triangles from the channel and write them to the file
 		for ts := range c {
+			verifEv("wr.recv", 0, len(ts), int(count))
 			for _, t := range ts {
 				n := t.Normal()
 				d.Normal[0] = float32(n.X)
@@ -218,6 +221,7 @@ func writeSTL(wg *sync.WaitGroup, path string) (chan<- []*sdf.Triangle3, error) 
 				d.Vertex3[1] = float32(t[2].Y)
 				d.Vertex3[2] = float32(t[2].Z)
 				if err := binary.Write(buf, binary.LittleEndian, &d); err != nil {
+					verifEv("wr.err", 0, int(count), 0)
 					fmt.Printf("%s\n", err)
 					return
 				}
@@ -225,6 +229,7 @@ func writeSTL(wg *sync.WaitGroup, path string) (chan<- []*sdf.Triangle3, error) 
 			}
 		}
 		// flush the triangles
+		verifEv("wr.eof", 0, int(count), 0)
 		buf.Flush()
 
 		// back to the start of the file
